@@ -54,8 +54,7 @@ impl ExtendedParticleData {
                 _ => {
                     // Skip unknown types for forward compatibility
                     let skip_size = reader.read_u32_le()?;
-                    let mut skip_buffer = vec![0u8; skip_size as usize];
-                    reader.read_exact(&mut skip_buffer)?;
+                    crate::common::read_exact_vec(reader, skip_size as usize)?;
                 }
             }
         }
@@ -390,7 +389,8 @@ impl ParentAnimationBlacklist {
     /// Parse PABC chunk
     pub fn parse<R: Read + std::io::Seek>(reader: &mut ChunkReader<R>) -> Result<Self> {
         let count = reader.chunk_size() / 2; // Each sequence ID is 2 bytes
-        let mut blacklisted_sequences = Vec::with_capacity(count as usize);
+        let mut blacklisted_sequences =
+            Vec::with_capacity(crate::common::bounded_capacity(count as usize));
 
         for _ in 0..count {
             blacklisted_sequences.push(reader.read_u16_le()?);
@@ -423,7 +423,8 @@ impl ParentAnimationData {
     /// Parse PADC chunk
     pub fn parse<R: Read + std::io::Seek>(reader: &mut ChunkReader<R>) -> Result<Self> {
         let weight_count = reader.read_u32_le()?;
-        let mut texture_weights = Vec::with_capacity(weight_count as usize);
+        let mut texture_weights =
+            Vec::with_capacity(crate::common::bounded_capacity(weight_count as usize));
 
         for _ in 0..weight_count {
             let weight = TextureWeight {
@@ -435,7 +436,8 @@ impl ParentAnimationData {
         }
 
         let mode_count = reader.read_u32_le()?;
-        let mut blending_modes = Vec::with_capacity(mode_count as usize);
+        let mut blending_modes =
+            Vec::with_capacity(crate::common::bounded_capacity(mode_count as usize));
 
         for _ in 0..mode_count {
             let mode = BlendMode {
@@ -646,14 +648,16 @@ impl EdgeFadeData {
     /// Parse EDGF chunk
     pub fn parse<R: Read + std::io::Seek>(reader: &mut ChunkReader<R>) -> Result<Self> {
         let distance_count = reader.read_u32_le()?;
-        let mut fade_distances = Vec::with_capacity(distance_count as usize);
+        let mut fade_distances =
+            Vec::with_capacity(crate::common::bounded_capacity(distance_count as usize));
 
         for _ in 0..distance_count {
             fade_distances.push(reader.read_f32_le()?);
         }
 
         let factor_count = reader.read_u32_le()?;
-        let mut fade_factors = Vec::with_capacity(factor_count as usize);
+        let mut fade_factors =
+            Vec::with_capacity(crate::common::bounded_capacity(factor_count as usize));
 
         for _ in 0..factor_count {
             fade_factors.push(reader.read_f32_le()?);
@@ -783,7 +787,7 @@ impl RecursiveParticleIds {
     /// Parse RPID chunk
     pub fn parse<R: Read + std::io::Seek>(reader: &mut ChunkReader<R>) -> Result<Self> {
         let count = reader.chunk_size() / 4; // Each ID is 4 bytes
-        let mut model_ids = Vec::with_capacity(count as usize);
+        let mut model_ids = Vec::with_capacity(crate::common::bounded_capacity(count as usize));
 
         for _ in 0..count {
             model_ids.push(reader.read_u32_le()?);
@@ -812,7 +816,7 @@ impl GeometryParticleIds {
     /// Parse GPID chunk
     pub fn parse<R: Read + std::io::Seek>(reader: &mut ChunkReader<R>) -> Result<Self> {
         let count = reader.chunk_size() / 4; // Each ID is 4 bytes
-        let mut model_ids = Vec::with_capacity(count as usize);
+        let mut model_ids = Vec::with_capacity(crate::common::bounded_capacity(count as usize));
 
         for _ in 0..count {
             model_ids.push(reader.read_u32_le()?);
@@ -841,7 +845,8 @@ impl TextureAnimationChunk {
     /// Parse TXAC chunk
     pub fn parse<R: Read + std::io::Seek>(reader: &mut ChunkReader<R>) -> Result<Self> {
         let count = reader.read_u32_le()?;
-        let mut texture_animations = Vec::with_capacity(count as usize);
+        let mut texture_animations =
+            Vec::with_capacity(crate::common::bounded_capacity(count as usize));
 
         for _ in 0..count {
             let extended_anim = ExtendedTextureAnimation::parse(reader)?;
@@ -1042,7 +1047,8 @@ impl ParticleGeosetData {
     /// Parse PGD1 chunk
     pub fn parse<R: Read + std::io::Seek>(reader: &mut ChunkReader<R>) -> Result<Self> {
         let count = reader.chunk_size() / 2; // Each entry is 2 bytes (u16)
-        let mut geoset_assignments = Vec::with_capacity(count as usize);
+        let mut geoset_assignments =
+            Vec::with_capacity(crate::common::bounded_capacity(count as usize));
 
         for _ in 0..count {
             let geoset = reader.read_u16_le()?;
@@ -1078,8 +1084,7 @@ pub struct DbocChunk {
 impl DbocChunk {
     /// Parse DBOC chunk
     pub fn parse<R: Read + std::io::Seek>(reader: &mut ChunkReader<R>) -> Result<Self> {
-        let mut data = vec![0u8; reader.chunk_size() as usize];
-        reader.read_exact(&mut data)?;
+        let data = crate::common::read_exact_vec(reader, reader.chunk_size() as usize)?;
 
         Ok(Self { data })
     }
@@ -1101,8 +1106,7 @@ pub struct AfraChunk {
 impl AfraChunk {
     /// Parse AFRA chunk
     pub fn parse<R: Read + std::io::Seek>(reader: &mut ChunkReader<R>) -> Result<Self> {
-        let mut data = vec![0u8; reader.chunk_size() as usize];
-        reader.read_exact(&mut data)?;
+        let data = crate::common::read_exact_vec(reader, reader.chunk_size() as usize)?;
 
         Ok(Self { data })
     }
@@ -1159,7 +1163,8 @@ impl DpivChunk {
 
         // Read vertex positions
         reader.seek_to_position(chunk_start + vertex_pos_offset as u64)?;
-        let mut vertex_positions = Vec::with_capacity(vertex_pos_count as usize);
+        let mut vertex_positions =
+            Vec::with_capacity(crate::common::bounded_capacity(vertex_pos_count as usize));
         for _ in 0..vertex_pos_count {
             let pos = [
                 reader.read_f32_le()?,
@@ -1171,7 +1176,8 @@ impl DpivChunk {
 
         // Read face normals
         reader.seek_to_position(chunk_start + face_norm_offset as u64)?;
-        let mut face_normals = Vec::with_capacity(face_norm_count as usize);
+        let mut face_normals =
+            Vec::with_capacity(crate::common::bounded_capacity(face_norm_count as usize));
         for _ in 0..face_norm_count {
             let normal = [
                 reader.read_f32_le()?,
@@ -1183,14 +1189,14 @@ impl DpivChunk {
 
         // Read indices
         reader.seek_to_position(chunk_start + index_offset as u64)?;
-        let mut indices = Vec::with_capacity(index_count as usize);
+        let mut indices = Vec::with_capacity(crate::common::bounded_capacity(index_count as usize));
         for _ in 0..index_count {
             indices.push(reader.read_u16_le()?);
         }
 
         // Read flags
         reader.seek_to_position(chunk_start + flags_offset as u64)?;
-        let mut flags = Vec::with_capacity(flags_count as usize);
+        let mut flags = Vec::with_capacity(crate::common::bounded_capacity(flags_count as usize));
         for _ in 0..flags_count {
             flags.push(reader.read_u16_le()?);
         }
@@ -1338,8 +1344,7 @@ impl ParentEventData {
             let data_size = reader.read_u32_le()?;
             let timestamp = reader.read_u32_le()?;
 
-            let mut data = vec![0u8; data_size as usize];
-            reader.read_exact(&mut data)?;
+            let data = crate::common::read_exact_vec(reader, data_size as usize)?;
 
             event_entries.push(ParentEventEntry {
                 event_id,
@@ -1401,7 +1406,8 @@ impl CollisionMeshData {
         let face_count = reader.read_u32_le()?;
         let material_count = reader.read_u32_le()?;
 
-        let mut vertices = Vec::with_capacity(vertex_count as usize);
+        let mut vertices =
+            Vec::with_capacity(crate::common::bounded_capacity(vertex_count as usize));
         for _ in 0..vertex_count {
             vertices.push([
                 reader.read_f32_le()?,
@@ -1410,7 +1416,7 @@ impl CollisionMeshData {
             ]);
         }
 
-        let mut faces = Vec::with_capacity(face_count as usize);
+        let mut faces = Vec::with_capacity(crate::common::bounded_capacity(face_count as usize));
         for _ in 0..face_count {
             faces.push(CollisionFace {
                 indices: [
@@ -1422,7 +1428,8 @@ impl CollisionMeshData {
             });
         }
 
-        let mut materials = Vec::with_capacity(material_count as usize);
+        let mut materials =
+            Vec::with_capacity(crate::common::bounded_capacity(material_count as usize));
         for _ in 0..material_count {
             materials.push(CollisionMaterial {
                 flags: reader.read_u32_le()?,
